@@ -600,8 +600,11 @@ WORDS = ['tʰɔxtər', 'dɔːtər', 'hant', 'hænd', 'ʃtɛrn', 'stɑːr', 'vɔl
          'ma⁵⁵ma²¹', 'θɪŋk', 'ðɪs', 'ʁoːt', 'ɾoxo', 'ɕiː', 'ɲo', 'ʋesi', 'ɦuis']
 
 
-def pairwise_entry(chk):
-    """Pairwise(...).align in all modes: IPA strings -> tokens -> classes -> align_pairs -> class2tokens."""
+def pairwise_entry(chk, want='rows'):
+    """Pairwise(...).align in all modes: IPA strings / token lists -> tokens -> classes -> align_pairs -> class2tokens.
+    want='rows': the C01 statement against the tokens the object held BEFORE align(); want='score': the alignments are what the kernel
+    returns for the REQUESTED parameters (explicit zeros and empty strings included) on the object's prepared sequences."""
+    import copy
     from lingpy.align.pairwise import Pairwise
     from lingpy.sequence.sound_classes import ipa2tokens
     rng = chk.rng
@@ -611,27 +614,62 @@ def pairwise_entry(chk):
         wa, wb = rng.choice(WORDS), rng.choice(WORDS)
         if rng.random() < 0.4:
             wa = wa + rng.choice(WORDS)
+        if rng.random() < 0.3:
+            # segmented input; a segment may be written in source/target notation (the target is what is analysed, the segment as
+            # written is what the alignment has to show)
+            wa, wb = ipa2tokens(wa), ipa2tokens(wb)
+            for w in (wa, wb):
+                if rng.random() < 0.6:
+                    k = rng.randrange(len(w))
+                    w[k] = rng.choice(['h₂', '?', 'X']) + '/' + w[k]
+            if rng.random() < 0.5:
+                wa, wb = ' '.join(wa), ' '.join(wb)
+            chk.hist['Pairwise: segmented input (source/target notation possible)'] += 1
         mode = rng.choice(al.MODES)
-        kw = dict(mode=mode, gop=rng.choice([-1, -2, -0.5]), scale=rng.choice([0.5, 1.0, 0.3]),
-                  factor=rng.choice([0.3, 0.0, 1.0]), restricted_chars=rng.choice(['T_', '', '_']))
+        kw = dict(mode=mode, gop=rng.choice([-1, -2, -0.5, 0]), scale=rng.choice([0.5, 1.0, 0.3]),
+                  factor=rng.choice([0.3, 0.0, 1.0, 0]), restricted_chars=rng.choice(['T_', '', '_']))
+        if rng.random() < 0.3:
+            kw['distance'] = rng.choice([True, False])
         try:
-            p = Pairwise(wa, wb)
+            p = Pairwise(copy.deepcopy(wa), copy.deepcopy(wb))
+            held = copy.deepcopy(p.tokens)
             p.align(**kw)
-            tokA, tokB = p.tokens[0]
+            tokA, tokB = held[0]
             almA, almB, sim = p.alignments[0]
             clA, clB, _ = p._alignments[0]
+        except ValueError as ex:
+            if 'unknown characters' in str(ex):
+                chk.hist['rejected:sequence of unknown characters only'] += 1      # documented rejection of the class converter
+                continue
+            fails.append((wa, wb, kw, 'raised %s: %s' % (type(ex).__name__, ex)))
+            continue
         except Exception as ex:  # noqa
             fails.append((wa, wb, kw, 'raised %s: %s' % (type(ex).__name__, ex)))
             continue
-        chk.count(('pairwise', wa, wb, tuple(sorted(kw.items()))), '-' in almA or '-' in almB, branch='entry:Pairwise.align/' + mode)
+        chk.count(('pairwise', str(wa), str(wb), tuple(sorted(kw.items()))), '-' in almA or '-' in almB, branch='entry:Pairwise.align/' + mode)
         e = None
-        if len(almA) != len(almB):
+        if want == 'score':
+            try:
+                exp = calign.align_pairs(p.classes, p.weights, p.prostrings, kw['gop'], kw['scale'], kw['factor'], p.scoredict,
+                                         kw['mode'], kw['restricted_chars'], distance=1 if kw.get('distance') else 0)[0]
+                got = p._alignments[0]
+                if (got[0], got[1]) != (exp[0], exp[1]) or not (got[2] == exp[2] or (got[2] != got[2] and exp[2] != exp[2])):
+                    e = ('Pairwise.align returned %r / score %r, the kernel called with the requested parameters on the same prepared sequences gives %r / %r'
+                         % ((got[0], got[1]), got[2], (exp[0], exp[1]), exp[2]))
+            except ZeroDivisionError:
+                pass
+            if e:
+                fails.append((wa, wb, kw, e))
+            continue
+        if held != p.tokens:
+            e = 'align() changed the segments the object holds: %r -> %r' % (held[0], p.tokens[0])
+        elif len(almA) != len(almB):
             e = 'rows differ in length'
         elif any(x == '-' and y == '-' for x, y in zip(almA, almB)):
             e = 'double gap'
         elif mode != 'local':
             if al.degap(almA) != list(tokA) or al.degap(almB) != list(tokB):
-                e = 'row does not de-gap to the tokens'
+                e = 'row %r does not de-gap to the tokens %r' % (almA if al.degap(almA) != list(tokA) else almB, tokA if al.degap(almA) != list(tokA) else tokB)
         else:
             pa, sa = len(clA[0]), len(clA[2])
             pb, sb = len(clB[0]), len(clB[2])
@@ -641,7 +679,7 @@ def pairwise_entry(chk):
                 e = 'class-level prefix+aligned+suffix does not cover the word'
         if e:
             fails.append((wa, wb, kw, e))
-    chk.obligation('oracle:Pairwise.align (IPA level)', 'correspondence', not fails, 'calls=%d failures=%d' % (n, len(fails)))
+    chk.obligation('oracle:Pairwise.align (IPA level, %s)' % want, 'correspondence', not fails, 'calls=%d failures=%d' % (n, len(fails)))
     for f in fails[:1]:
         chk.violation('Pairwise.align(%r,%r,%r): %s' % f, {'kind': 'pairwise', 'seqA': f[0], 'seqB': f[1], 'kw': f[2], 'why': f[3]})
 
